@@ -9,6 +9,7 @@ pub mod hist;
 pub mod crashfs;
 pub mod walcodec;
 pub mod aggworld;
+pub mod http;
 
 pub use rng::Rng;
 
